@@ -480,7 +480,7 @@ mut('c09-tab-newline-detaches', 'C09', 'tokens.py',
     while text.hasNext() and text.peek().category == CC.Spacer:""")
 
 # ---------------------------------------------------------------- C10 ------
-mut('c10-comment-stops-at-brace-after-backslash', 'C10 C01', 'tokens.py',
+mut('c10-comment-stops-at-brace-after-backslash', 'C10 C02', 'tokens.py',
     """        while text.hasNext() and text.peek().category != CC.EndOfLine:
             result += text.forward(1)
         result.category = TC.Comment""",
